@@ -101,43 +101,53 @@ func (s *Search[B]) Explore() error {
 }
 
 func (s *Search[B]) once() error {
+	// Serial BFS pre-pass on one instance until there are enough prefixes to shard.
 	in0, err := s.NewInstance()
 	if err != nil {
 		return err
 	}
-	root := in0.Root()
-	s.visit(in0.Key(root), s.Depth)
-	first := in0.Menu(root, 0)
-	type job struct{ i, j int }
-	var jobs []job
-	for i, b := range first {
-		s.Run.Transitions.Add(1)
-		s.Run.Validated.Add(1)
-		next := in0.Step(root, b, []B{b}, false)
-		if next == nil || s.Depth < 2 {
-			continue
-		}
-		if !s.visit(in0.Key(next), s.Depth-1) {
-			continue
-		}
-		for j := range in0.Menu(next, 1) {
-			jobs = append(jobs, job{i, j})
-		}
-	}
-	in0.Close()
-	if len(jobs) == 0 {
-		return nil
+	type item struct {
+		n    Node
+		path []B
 	}
 	workers := s.Workers
 	if workers == 0 {
 		workers = runtime.NumCPU()
 	}
-	if workers > len(jobs) {
-		workers = len(jobs)
+	frontier := []item{{in0.Root(), nil}}
+	level := 0
+	for level < s.Depth && len(frontier) > 0 && len(frontier) < 4*workers {
+		var next []item
+		for _, it := range frontier {
+			if !s.visit(in0.Key(it.n), s.Depth-level) {
+				continue
+			}
+			for _, b := range in0.Menu(it.n, level) {
+				p := append(append([]B{}, it.path...), b)
+				s.Run.Transitions.Add(1)
+				s.Run.Validated.Add(1)
+				if nn := in0.Step(it.n, b, p, false); nn != nil {
+					next = append(next, item{nn, p})
+				}
+			}
+		}
+		frontier = next
+		level++
 	}
-	ch := make(chan job, len(jobs))
-	for _, jb := range jobs {
-		ch <- jb
+	var paths [][]B
+	for _, it := range frontier {
+		paths = append(paths, it.path)
+	}
+	in0.Close()
+	if len(paths) == 0 || level >= s.Depth {
+		return nil
+	}
+	if workers > len(paths) {
+		workers = len(paths)
+	}
+	ch := make(chan []B, len(paths))
+	for _, p := range paths {
+		ch <- p
 	}
 	close(ch)
 	var wg sync.WaitGroup
@@ -155,25 +165,15 @@ func (s *Search[B]) once() error {
 				return
 			}
 			defer in.Close()
-			root := in.Root()
-			lastI := -1
-			var mid Node
-			for jb := range ch {
-				if jb.i != lastI {
-					mid = in.Step(root, first[jb.i], []B{first[jb.i]}, true)
-					if mid == nil {
-						panic("search: level-1 step not reproducible")
+			for p := range ch {
+				n := in.Root()
+				for i := range p {
+					n = in.Step(n, p[i], p[:i+1], true) // silent re-execution of the prefix
+					if n == nil {
+						panic("search: prefix not reproducible")
 					}
-					lastI = jb.i
 				}
-				b2 := in.Menu(mid, 1)[jb.j]
-				p := []B{first[jb.i], b2}
-				s.Run.Transitions.Add(1)
-				s.Run.Validated.Add(1)
-				next := in.Step(mid, b2, p, false)
-				if next != nil {
-					s.dfs(in, next, p, 2)
-				}
+				s.dfs(in, n, p, len(p))
 			}
 		}()
 	}
